@@ -535,6 +535,10 @@ class Pipeline:
                 self._func_defaults(func) | flat_scope_kwargs | func._bound,
                 root_args,
             )
+            if any(k in self.output_to_func for k in flat_scope_kwargs):
+                # An intermediate result was provided as an input, so the root
+                # arguments no longer determine the output: do not use the cache.
+                cache_key = None
             return_now, result_from_cache = get_result_from_cache(
                 func,
                 cache,
